@@ -90,7 +90,7 @@ func runEntry(c *Case) error {
 			hx.Label("entry in Rpc at the failure: 16+")
 		}
 		if maxIn >= 1 {
-			hx.NonTrivial("entry", c.Dotu, c.Msize, c.Fail, c.Callers, c.Rounds, c.Mode, c.Perturb, c.Hook, c.Procs, c.Cut, c.Spread, c.After)
+			hx.NonTrivial("entry", c.Dotu, c.Msize, c.Fail, c.Callers, c.Rounds, c.Mode, c.Perturb, c.Hook, c.Procs, c.Cut, c.Spread, c.After, c.Via)
 		}
 	}()
 	for r := 0; r < c.Rounds; r++ {
@@ -132,18 +132,45 @@ func entryRound(c *Case, round int) (inAtFailure int64, err error) {
 				_, _ = end.Write(ref9p.Encode(&ref9p.Msg{Type: ref9p.Rversion, Tag: m.Tag, Msize: ms, Version: ver}, false))
 				continue
 			}
-			if c.Mode != "answer" || quiet.Load() {
+			// (a Tattach is sent only by MountConn, while the client is being made)
+			if m.Type != ref9p.Tattach && (c.Mode != "answer" || quiet.Load()) {
 				continue
 			}
 			_, _ = end.Write(ref9p.Encode(peer.Answer(m), dotu))
 		}
 	}()
-	clnt, err := go9p.Connect(lib, c.Msize, c.Dotu)
-	if err != nil {
-		_ = lib.Close()
-		return 0, fmt.Errorf("Connect: %v", err)
+	var clnt *go9p.Clnt
+	if c.Via == "mounted" {
+		// (MountConn always asks for 9P2000.u, and this peer grants what is asked)
+		if c.Msize < 64 || !c.Dotu {
+			return 0, fmt.Errorf("harness: entry storm on a mounted client with msize %d, dotu %v", c.Msize, c.Dotu)
+		}
+		type mres struct {
+			clnt *go9p.Clnt
+			err  error
+		}
+		mch := make(chan mres, 1)
+		go func() {
+			cl, e := go9p.MountConn(lib, "c10", c.Msize-go9p.IOHDRSZ, go9p.OsUsers.Uid2User(0))
+			mch <- mres{cl, e}
+		}()
+		m, ok := await(mch)
+		if !ok {
+			return 0, hang("MountConn did not return within %v against a peer that answers Tversion and Tattach", deadline)
+		}
+		if m.err != nil || m.clnt == nil || m.clnt.Root == nil {
+			_ = lib.Close()
+			return 0, fmt.Errorf("MountConn: %v", m.err)
+		}
+		clnt = m.clnt
+	} else {
+		var err error
+		if clnt, err = go9p.Connect(lib, c.Msize, c.Dotu); err != nil {
+			_ = lib.Close()
+			return 0, fmt.Errorf("Connect: %v", err)
+		}
 	}
-	defer clnt.Unmount()
+	defer tidyUnmount(clnt)
 	x := hx.Mix(c.Perturb, uint64(round), 77)
 	gate := make(chan struct{})
 	var wg sync.WaitGroup
@@ -184,6 +211,7 @@ func entryRound(c *Case, round int) (inAtFailure int64, err error) {
 	}
 	delay := hx.Mix(x, 999) % uint64(1+c.Cut)
 	failed := make(chan struct{})
+	unmounted := make(chan struct{})
 	go func() {
 		<-gate
 		spinSink.Add(spin(delay))
@@ -195,7 +223,7 @@ func entryRound(c *Case, round int) (inAtFailure int64, err error) {
 		case "err":
 			end.FailPeer(errors.New("injected transport error"))
 		case "unmount":
-			clnt.Unmount()
+			go func() { clnt.Unmount(); close(unmounted) }()
 		case "badtype":
 			_, _ = end.Write([]byte{7, 0, 0, 0, 99, 1, 0})
 		case "size3":
@@ -211,6 +239,11 @@ func entryRound(c *Case, round int) (inAtFailure int64, err error) {
 	}()
 	close(gate)
 	<-failed
+	if c.Fail == "unmount" {
+		if _, ok := await(unmounted); !ok {
+			return inAtFailure, hang("Unmount did not return within %v (client made by %s, %d callers entering Rpc, %d calls in Rpc when it was called; from then on the peer answers nothing)", deadline, madeBy(c), c.Callers, inAtFailure)
+		}
+	}
 	done := make(chan struct{})
 	go func() { wg.Wait(); close(done) }()
 	if _, ok := await(done); !ok {
@@ -264,6 +297,10 @@ func entryDraw(t *testing.T, failedp *error) {
 			Cut:     rapid.SampledFrom([]int{0, 20000, 200000, 1000000}).Draw(t, "cut"),
 			Spread:  rapid.SampledFrom([]int{0, 0, 0, 2000}).Draw(t, "spread"),
 			After:   rapid.IntRange(1, 3).Draw(t, "after"),
+		}
+		// one storm in three runs on a client made by MountConn (it has a Root fid)
+		if rapid.IntRange(0, 2).Draw(t, "mounted") == 0 {
+			c.Via, c.Dotu = "mounted", true
 		}
 		if *failedp != nil {
 			return
